@@ -190,7 +190,9 @@ def peerEvent (a : Acc) (ev : Label) (o : String) : Acc :=
       let p3 := { p2 with ended := ended' }
       -- 4. windows as MOSN reports them
       let winModel := if n == 0 then "x" else joinWith ";" (s!"{p3.cn}" :: (List.range n).map (fun i => s!"{(p3.strms.getD i { n := 0, rem := 0 }).n}"))
-      let winOk := winModel == win
+      -- after a connection error the windows are dead state (a server SETTINGS that overflows one stream has already
+      -- updated the streams that came earlier in Go's map order)
+      let winOk := winModel == win || (p3.closed && connErrObs)
       let errOk := connErrObs == p3.closed
       -- 5. the peer's books on what was observed (independent of the model)
       let peer1 := (obsOfLabel ev).foldl peerStep a.peer
